@@ -1148,15 +1148,15 @@ func (p *proposalShard) getProposal(clientID uint64,
 	return p.takeProposal(clientID, seriesID, key, now, true)
 }
 
-func (p *proposalShard) borrowProposal(clientID uint64,
-	seriesID uint64, key uint64, now uint64) *RequestState {
-	return p.takeProposal(clientID, seriesID, key, now, false)
-}
-
 func (p *proposalShard) takeProposal(clientID uint64,
 	seriesID uint64, key uint64, now uint64, remove bool) *RequestState {
 	p.mu.Lock()
 	defer p.mu.Unlock()
+	return p.takeProposalLocked(clientID, seriesID, key, now, remove)
+}
+
+func (p *proposalShard) takeProposalLocked(clientID uint64,
+	seriesID uint64, key uint64, now uint64, remove bool) *RequestState {
 	if p.stopped {
 		return nil
 	}
@@ -1173,7 +1173,13 @@ func (p *proposalShard) takeProposal(clientID uint64,
 }
 
 func (p *proposalShard) committed(clientID uint64, seriesID uint64, key uint64) {
-	if ps := p.borrowProposal(clientID, seriesID, key, p.getTick()); ps != nil {
+	// the proposal stays in the table, it must be notified with the lock held.
+	// otherwise it can be expired by gc, released and reused for another request
+	// before the notification is sent.
+	p.mu.Lock()
+	defer p.mu.Unlock()
+	now := p.getTick()
+	if ps := p.takeProposalLocked(clientID, seriesID, key, now, false); ps != nil {
 		ps.committed()
 	}
 }
